@@ -95,7 +95,7 @@ func dumpIndexes(st storage.Store, gname string) {
 	if err != nil {
 		return
 	}
-	m, ok := memory.VerifDumpIndexes(g)
+	m, ok := verifDump(g)
 	if !ok {
 		return
 	}
